@@ -666,12 +666,53 @@ def _axis_slots(t):
     return None
 
 
+_ELEMENTWISE = ("abs", "absolute", "fabs", "mod", "remainder", "fmod", "min", "minimum", "max", "maximum", "neg", "round", "floor", "ceil", "where", "real")
+
+
+def _elementwise_in(v, ts, depth=0):
+    """the folded axis enters the value sample by sample (not through a pick, a reduction or a table built from it)"""
+    if not isinstance(v, Form) or depth > 8:
+        return False
+    if repr(v) == ts:
+        return True
+    for m in v.terms:
+        for a, _e in m:
+            if repr(Form.atom(a)) == ts:
+                return True
+            if a[0] == "grp" and _elementwise_in(a[1], ts, depth + 1):
+                return True
+            if a[0] == "fn" and a[1].split(".")[-1] in _ELEMENTWISE and any(_elementwise_in(x, ts, depth + 1) for x in a[2]):
+                return True
+    return False
+
+
+def _window_kind(side, ts):
+    """how a quantity compared with a window width depends on the folded time axis: 'raw' (the axis itself: one window per trace),
+    'centred' (distance to the nearest image of an instant: |((t - t0 + 1/2) mod 1) - 1/2| or min(r, 1 - r)), 'one-sided'
+    (a bare remainder: samples just BEFORE an image have a remainder close to 1 and fall outside), None (does not involve the axis)"""
+    if not isinstance(side, Form) or ts not in repr(side) or not _elementwise_in(side, ts):
+        return None
+    mods = [a for a in side.atoms() if a[0] == "fn" and a[1].split(".")[-1] in ("mod", "remainder", "fmod") and ts in repr(a[2][0])]
+    if not mods:
+        return "raw"
+    sa = side.single_atom()
+    if sa and sa[0] == "fn" and sa[1].split(".")[-1] in ("abs", "absolute", "fabs") and isinstance(sa[2][0], Form):
+        inner = sa[2][0]
+        c = inner.terms.get(())
+        if c is not None and c[0] != 0 and any(a in mods for a in inner.atoms(deep=False)):
+            return "centred"
+    if sa and sa[0] == "fn" and sa[1].split(".")[-1] in ("min", "minimum") and len(sa[2]) == 2 and all(isinstance(x, Form) and any(a in mods for a in x.atoms()) for x in sa[2]):
+        return "centred"
+    return "one-sided"
+
+
 def rule_every_slot(ctx, rule):
     """both symbols present does not mean both present at every slot parity: the record is folded two slots per trace, so a
     window around ONE instant of the trace looks at every second slot only. Data whose ON slots all fall on the other parity
     (1010..., PPM symbols that share their parity) leave the ON population empty: mu1 = s1 = nan and the receivers that
-    estimate their threshold from the eye decide nothing. The populations must be drawn at the optimum instant of EVERY slot
-    of the trace (a window on the slot-periodic time, or one window per slot)."""
+    estimate their threshold from the eye decide nothing. The populations behind mu0, mu1, s0, s1 AND the samples the threshold
+    density is estimated from must be drawn at the optimum instant of EVERY slot of the trace: a window on the centred
+    slot-periodic distance to that instant."""
     pkg = ctx.pkg
     fi = pkg.func("devices.GET_EYE")
     for resamp in (True, False):
@@ -684,31 +725,28 @@ def rule_every_slot(ctx, rule):
             continue
         eye, t = rets[0].value, rets[0].value.fields["t"]
         k = _axis_slots(t)
-        lows, highs = [], []
-        for name in ("mu0", "mu1", "s0", "s1"):
+        ts = repr(t)
+        found = {}
+        for name in ("mu0", "mu1", "s0", "s1", "threshold"):
             v = eye.fields.get(name)
             if isinstance(v, Form):
                 for a in v.atoms():
-                    if a[0] == "fn" and a[1] in ("gt", "ge", "lt", "le") and len(a[2]) == 2 and (a[2][0] == t) != (a[2][1] == t):
-                        t_first = a[2][0] == t
-                        other = a[2][1] if t_first else a[2][0]
-                        (lows if (a[1] in ("gt", "ge")) == t_first else highs).append(other)
-        td = eye.fields.get("t_dist")
-        narrow = None
-        if k is not None and k >= 2 and lows and highs and isinstance(td, Form) and td.terms and all(isinstance(x, Form) for x in lows + highs):
-            w = highs[0] - lows[0]
-            m0 = next(iter(td.terms))
-            c = w.terms.get(m0)
-            if c is not None and c[1] == 0 and td.terms[m0][1] == 0:
-                ratio = c[0] / td.terms[m0][0]
-                if w == td * Form.num(ratio) and 0 < ratio < Fraction(1, 2):
-                    narrow = ratio
-        if narrow is not None:
+                    if a[0] == "fn" and a[1] in ("gt", "ge", "lt", "le") and len(a[2]) == 2:
+                        for side in a[2]:
+                            kind = _window_kind(side, ts)
+                            if kind is not None:
+                                found.setdefault(kind, []).append((name, side))
+        bad = [(kind, name, side) for kind in ("raw", "one-sided") for name, side in found.get(kind, [])]
+        if k is not None and k >= 2 and bad:
+            kind, name, side = bad[0]
+            fields = sorted({n_ for _k, n_, _s in bad})
+            why = ("a window on the raw axis is ONE window per trace, i.e. every second slot" if kind == "raw" else
+                   "a bare remainder is one-sided: the samples just before the next image of the instant have a remainder close to 1 and fall outside, on a coarse grid the whole second slot is lost")
             ctx.violation(rule, fi, rets[0].node, label,
-                          f"the time axis folds {k} slots per trace and the ON / OFF populations are the samples with {short(lows[0], 60)} < t < {short(highs[0], 60)}: one window of {float(narrow):g} of the crossing "
-                          "distance around a single instant, i.e. every second slot. Data whose ON slots share a parity (1010..., PPM symbols of one parity) give an empty population: mu1 = nan, no threshold"[:700])
+                          f"the time axis folds {k} slots per trace and the samples behind {', '.join(fields)} are selected by comparing {short(side, 90)} with the window width: {why}. "
+                          "Data whose ON slots share a parity (1010..., PPM symbols of one parity) give an empty or one-level population: mu1 = nan, or a threshold sitting on a level"[:900])
         else:
-            ctx.holds(rule, fi, rets[0].node, label, "no single sub-slot window on a multi-slot trace" if k != 1 else "one slot per trace")
+            ctx.holds(rule, fi, rets[0].node, label, "windows on the centred slot-periodic distance" if found.get("centred") else ("one slot per trace" if k == 1 else "no time window on a multi-slot trace"))
 
 
 def rule_periodic_crossings(ctx, rule):
